@@ -257,6 +257,20 @@ impl ProxyServer {
                                 LoggerLevel::Error,
                                 format!("Failed to set stream read timeout: {}", e),
                             );
+                            // this connection was accepted but is not going to be served:
+                            // its audit entry must still be consumed, otherwise a later
+                            // connection from the same source port would inherit it.
+                            if let Err(e) = crate::redirector::remove_audit(
+                                client_addr.port(),
+                                &cloned_proxy_server.redirector_shared_state,
+                            )
+                            .await
+                            {
+                                tcp_connection_logger.write(
+                                    LoggerLevel::Warn,
+                                    format!("Failed to remove audit entry: {}", e),
+                                );
+                            }
                             return;
                         }
                     };
